@@ -77,6 +77,9 @@ def _dtype_of(dt):
         return int64
     if dt is bool:
         return bool_
+    nm = getattr(dt, "__name__", None)
+    if nm in ("s_int", "s_float", "s_bool"):
+        return {"s_int": int64, "s_float": float64, "s_bool": bool_}[nm]
     if isinstance(dt, str):
         return {"float": float64, "int": int64, "bool": bool_,
                 "float64": float64, "uint8": uint8}[dt]
